@@ -7,7 +7,8 @@ from ..runs_run import run_programs, run_one
 
 RULE = ("engine histories (all op kinds, fixed-income trees with coupons and holding costs included) and generated backtests; for every "
         "closed date value[t]-value[t-1] = MTM + flows + non-flow adjustments + carry(t-1) - fees - bid/offer; steps re-executed "
-        "by the Lean model. distinct = (tree shape, op, outcome, integer, commission) / program shape")
+        "by the Lean model; sub-strategies booked during a run in both orders (bind-then-fund, fund-then-bind), re-bound while "
+        "holding cash, funded and drawn down again. distinct = (tree shape, op, outcome, integer, commission) / program shape")
 ASSUMPTIONS = ["dates are closed by an update before the clock moves", "dates on which a held security has a missing price are skipped (ill-formed, C10)"]
 
 FOOT_FIELDS = {"capital", "position", "value", "price", "rValue", "rCash", "rPosition", "netFlows", "lastFee", "rFees", "rFlows",
@@ -105,6 +106,178 @@ def dynamic_substrategy_cases(ctx, bt, n):
             break
 
 
+def gen_booking_script(rng):
+    """one scripted life of a sub-strategy booked while the run is going on.  Everything the runner does is in the script (no PRNG at
+    run time), so a failing script is its own replay.  Varied: where the child hangs (under the root or under a static sub-strategy),
+    how its securities are declared, the order of the two steps of opening it (bind it to the data then fund it / fund it then bind
+    it), how the freshly bound node is brought to the current date, a commission schedule, and afterwards any mix of: more capital
+    pushed down, capital pulled back, external flows at the root, re-binding the child (new additional data) while all it has ever
+    held is cash, trades of the child and of its host"""
+    from .. import gen_runs as R
+    T = rng.randint(6, 10)
+    dates, _k = R.gen_index(rng, T)
+    names = R.TICKERS[:rng.randint(2, 4)]
+    px = {t: [max(1.0, float(20 + 7 * j + rng.randint(-3, 6) * i)) for i in range(T)] for j, t in enumerate(names)}
+    cap = 1000000.0
+    kb = rng.randint(1, T - 3)
+    quiet = rng.randint(0, 2)          # dates after the booking on which the child only holds cash
+    sc = {"dates": dates, "names": names, "prices": px, "cap": cap,
+          "nested": rng.random() < 0.4,
+          "kid_children": rng.choice(["strings", "strings", "none", "nodes"]),
+          "comm_bps": rng.choice([0, 0, 5, 10]),
+          "integer": rng.random() < 0.6,
+          "kb": kb,
+          "order": rng.choice(["fund-bind", "fund-bind", "bind-fund"]),
+          "fund": cap * rng.choice([0.1, 0.25, 0.5]),
+          "fund_update": rng.random() < 0.5,
+          "wake": rng.choice(["kid", "root", "host"]),
+          "core": [rng.choice(names), 1000.0 * rng.randint(50, 300)] if rng.random() < 0.6 else None,
+          "days": {}}
+    for i in range(kb, T):
+        ops = []
+        live = i - kb >= quiet
+        if i > kb or rng.random() < 0.4:
+            for _ in range(rng.randint(0, 3)):
+                r = rng.random()
+                if r < 0.2:
+                    ops.append(["fund", 1000.0 * rng.randint(5, 60)])
+                elif r < 0.35:
+                    ops.append(["pull", 1000.0 * rng.randint(1, 20)])
+                elif r < 0.45:
+                    ops.append(["flow", 1000.0 * rng.randint(-30, 50)])
+                elif r < 0.6:
+                    ops.append(["rebind", rng.choice(["kid", "root", "host"])])
+                elif r < 0.7:
+                    ops.append(["host-alloc", rng.choice(names), 1000.0 * rng.randint(5, 40)])
+                elif live and r < 0.85:
+                    ops.append(["kid-alloc", rng.choice(names), 1000.0 * rng.randint(2, 15)])
+                elif live and r < 0.95:
+                    ops.append(["kid-transact", rng.choice(names), float(rng.randint(10, 300))])
+                elif live:
+                    ops.append(["kid-close", rng.choice(names)])
+        sc["days"][str(i)] = ops
+    return sc
+
+
+def run_booking_script(ctx, bt, sc):
+    """execute a booking script on the real code, every date closed by an update of the root; judged by the day-by-day attribution of
+    the ROOT (pnl_check): moving capital between a parent and its sub-strategies never changes total value.
+    A re-bind (`setup_from_parent` again) starts the recorded histories of the child and of its securities over, so it is only
+    scripted while the child has never traded: the rows that are wiped are all zero and the attribution still has its inputs."""
+    import pandas as pd
+    idx = pd.DatetimeIndex(sc["dates"])
+    names = list(sc["names"])
+    data = pd.DataFrame({t: [float(x) for x in sc["prices"][t]] for t in names}, index=idx)
+    T = len(idx)
+    cap = float(sc["cap"])
+    if sc["nested"]:
+        root = bt.Strategy("top", children=[bt.Strategy("mid", children=list(names))] + [bt.Security(t) for t in names])
+        host = root.children["mid"]           # the constructor works on copies of the nodes it is given
+    else:
+        root = host = bt.Strategy("top", children=list(names))
+    bps = sc["comm_bps"]
+    fee = (lambda q, p: abs(q) * p * bps / 10000.0) if bps else None
+    root.setup(data)
+    if fee is not None:
+        root.set_commissions(fee)
+    root.use_integer_positions(bool(sc["integer"]))
+    root.adjust(cap)
+    root.update(idx[0])
+    if sc["nested"]:
+        root.allocate(cap * 0.5, "mid")
+        root.update(idx[0])
+    kid = None
+    traded = False
+    kb = sc["kb"]
+
+    def wake(how):
+        if how == "kid":
+            kid.update(root.now)
+        elif how == "host":
+            host.update(root.now)
+        root.update(root.now)
+
+    for i in range(1, T):
+        root.update(idx[i])
+        if i == 1 and sc["core"]:
+            host.allocate(sc["core"][1], sc["core"][0])
+        if i == kb:
+            if sc["kid_children"] == "strings":
+                kids = list(names)
+            elif sc["kid_children"] == "nodes":
+                kids = [bt.Security(t) for t in names]
+            else:
+                kids = None
+            kid = bt.Strategy("dyn", children=kids, parent=host)
+            if sc["order"] == "fund-bind":
+                host.allocate(sc["fund"], "dyn", update=sc["fund_update"])
+                kid.setup_from_parent()
+                ctx.count("booking:fund-then-bind")
+            else:
+                kid.setup_from_parent()
+                host.allocate(sc["fund"], "dyn", update=sc["fund_update"])
+                ctx.count("booking:bind-then-fund")
+            if fee is not None:
+                kid.set_commissions(fee)
+            kid.use_integer_positions(bool(sc["integer"]))
+            wake(sc["wake"])
+        if kid is not None:
+            for op in sc["days"].get(str(i), []):
+                k = op[0]
+                if k == "fund":
+                    host.allocate(op[1], "dyn")
+                elif k == "pull":
+                    if kid.capital >= op[1]:
+                        host.allocate(-op[1], "dyn")
+                        ctx.count("booking:capital-pulled-back")
+                elif k == "flow":
+                    if op[1] > 0 or root.capital > -op[1]:
+                        root.adjust(op[1])
+                elif k == "rebind":
+                    if not traded:
+                        held = kid.capital
+                        kid.setup_from_parent(note=i)
+                        if fee is not None:
+                            kid.set_commissions(fee)
+                        wake(op[1])
+                        ctx.count("booking:rebind-holding-cash" if held else "booking:rebind-empty")
+                elif k == "host-alloc":
+                    host.allocate(op[2], op[1])
+                elif k == "kid-alloc":
+                    traded = True
+                    kid.allocate(op[2], op[1])
+                elif k == "kid-transact":
+                    traded = True
+                    kid.transact(op[2], op[1])
+                elif k == "kid-close":
+                    if op[1] in kid.children and kid.children[op[1]]._position != 0:
+                        kid.close(op[1])
+        root.update(idx[i])
+    return root, T
+
+
+def booking_order_cases(ctx, bt, n):
+    """the two orders of opening a sub-strategy during a run, and re-binding one that holds cash (see gen_booking_script)"""
+    for _ in range(n):
+        sc = gen_booking_script(ctx.rng)
+        check_booking_script(ctx, bt, sc)
+
+
+def check_booking_script(ctx, bt, sc):
+    ctx.evaluations += 1
+    ctx.count("booking-order-cases")
+    try:
+        root, T = run_booking_script(ctx, bt, sc)
+    except Exception as e:  # noqa
+        ctx.count("booking-order:raised:" + E.classify_exc(e))
+        return
+    ctx.classes.add(("booking-order", sc["order"], sc["nested"], sc["kid_children"], sc["wake"], bool(sc["comm_bps"])))
+    for key, msg in M.pnl_check(bt, root, T, None):
+        ctx.violation("C02/" + key + ":booking-order", "%s, %s: %s" % (sc["order"], "under a sub-strategy" if sc["nested"] else "under the root", msg),
+                      {"booking": sc})
+        break
+
+
 def run(ctx, bt):
     dynamic_substrategy_cases(ctx, bt, ctx.scale(40, 600))
     from .. import gen_engine as _G
@@ -122,6 +295,8 @@ def run(ctx, bt):
     from .. import whole_run as W
     # complete backtests of program trees (flat and nested, shadow copies included) executed end to end by the model
     W.whole_run_protocol(ctx, bt, ctx.scale(15, 300), "whole-run[C02]", footprint_fields=FOOT_FIELDS)
+    # last, so that the PRNG stream of the families above is the one their recorded replays were drawn from
+    booking_order_cases(ctx, bt, ctx.scale(120, 1500))
 
 
 def search(ctx, bt):
@@ -134,6 +309,9 @@ def search(ctx, bt):
 
 def replay(bt, data, ctx):
     case = data["case"]
+    if "booking" in case:
+        check_booking_script(ctx, bt, case["booking"])
+        return
     if "dyn" in case:
         dynamic_substrategy_cases(ctx, bt, 300)      # regenerated from the seed of the run
         return
